@@ -30,7 +30,7 @@ VERBOSE = os.environ.get("VERIF_VERBOSE", "0") != "0"
 KEEP = os.environ.get("VERIF_KEEP", "0") != "0"
 
 CHECK_FLAGS = ["--bounds-check", "--pointer-check", "--pointer-overflow-check",
-               "--signed-overflow-check", "--conversion-check", "--div-by-zero-check",
+               "--signed-overflow-check", "--div-by-zero-check",
                "--pointer-primitive-check", "--drop-unused-functions", "--slice-formula",
                "--no-malloc-may-fail"]
 
@@ -534,6 +534,8 @@ def run_harness(ub, h):
         o["internal"] = fn.startswith("__CPROVER_contracts") or r["property"].startswith("__CPROVER_contracts")
         if ".no-body." in r["property"] or r["description"].startswith("no body for callee"):
             callee = r["description"].replace("no body for callee", "").strip()
+            if "nondet_" in callee:
+                continue   # harness input source (block-scope declaration in C++ mode)
             if any(re.search(p, callee) for p in h.get("allow_no_body", []) + u.get("allow_no_body", [])):
                 res.setdefault("externals_arbitrary", []).append(callee)
                 continue
